@@ -355,6 +355,48 @@ def stream_stags(ctx: Ctx):
     ctx.sample({"stream": "S-tags", "case": terms[len(terms) // 2][:300]})
 
 
+def cplatform(p):
+    if p is None:
+        return "None"
+    o = p.os
+    n = type(o).__name__
+    os_c = "Windows" if n == "Windows" else f"({n} {o.major} {o.minor})"
+    return f"(Some (mkPlatform {os_c} {ARCH_COQ[str(p.arch)]}))"
+
+
+def stream_scmp(ctx: Ctx):
+    """Model/Tags.v `compare` against EnvSpec.compare over pairs of the EnvSpec grid"""
+    import coqrun
+    import specgen as sg
+    from dep_logic.tags import EnvSpec
+    rng = random.Random(ctx.seed + 73)
+    rps = ["", ">=3.7", ">=3.8", ">=3.6,<3.9", "==3.8.*", "<3", ">=3.10", "<3.6||>=3.10", ">=3.8.0", ">=3.8,<3.8.5", "<3.7"]
+    plats = [None, "manylinux_2_17_x86_64", "manylinux_2_28_x86_64", "manylinux_2_17_aarch64", "musllinux_1_1_x86_64", "musllinux_1_2_x86_64", "macos_10_9_x86_64",
+             "macos_10_15_x86_64", "macos_11_0_x86_64", "macos_12_0_arm64", "macos_14_0_arm64", "windows_amd64", "windows_x86", "manylinux_3_0_x86_64", "macos_11_3_arm64"]
+    impls = [None, ("cpython", False), ("cpython", True), ("pypy", False)]
+    IMPL_COQ = {None: "None", ("cpython", False): "(Some (0, false))", ("cpython", True): "(Some (0, true))", ("pypy", False): "(Some (1, false))"}
+    specs = [(rp, pl, im) for rp in rps for pl in plats for im in impls]
+    terms = []
+    for _ in range(1500 if ctx.tier == "quick" else 20000):
+        (ra, pa, ia), (rb, pb, ib) = rng.choice(specs), rng.choice(specs)
+        if rng.random() < 0.15:
+            rb, pb, ib = ra, pa, ia
+        if rng.random() < 0.3:
+            pb = pa if rng.random() < 0.5 else pb
+            ib = ia
+        A = EnvSpec.from_spec(ra, pa, ia[0] if ia else None, ia[1] if ia else False)
+        B = EnvSpec.from_spec(rb, pb, ib[0] if ib else None, ib[1] if ib else False)
+        r = int(A.compare(B))
+        terms.append(f"TCompare {sg.cspec(A.requires_python)} {cplatform(A.platform)} {IMPL_COQ[ia]} {sg.cspec(B.requires_python)} {cplatform(B.platform)} {IMPL_COQ[ib]} {r}")
+    total, bad, errs = coqrun.eval_cases(terms, f"{ctx.prop}-scmp", mod="Platform Tags Corr CorrTags", casety="tcase", runner="run_tcases", shard=300)
+    ctx.count("S-cmp", total)
+    if errs:
+        ctx.broke("correspondence", "S-cmp (evaluation failed)", "\n".join(errs[:3]))
+    if bad:
+        ctx.broke("correspondence", "S-cmp: Model/Tags.v compare vs EnvSpec.compare", f"{len(bad)} of {total} cases differ; first: {terms[bad[0]][:500]}")
+    ctx.sample({"stream": "S-cmp", "case": terms[0][:300]})
+
+
 # ------------------------------------------------------------------------------ C16
 def oracle_c16(ctx: Ctx, n=None):
     from dep_logic.specifiers import parse_version_specifier
